@@ -1,14 +1,215 @@
-//! Operations for C19 (see ops.rs). Fill in: return Some(outcome) for the ops this module owns.
-use crate::js::{self, big, int};
-use crate::ops::{utc, FS};
+//! Operations for C19 (see ops.rs): wrapper-vs-core pairs.
+//!
+//! `Wrap.<row>` executes the wrapper function named by the row (`ZonedDateTime.year` = the compiled-data
+//! convenience method, `capi.PlainDate.year` = the `temporal_capi` FFI function called from Rust) and the
+//! core function named by `args.twin` (`ZonedDateTime.year_with_provider`, `PlainDate.year`, ...) on the same
+//! arguments, and returns both outcomes: `{"wrapper": outcome, "core": outcome}`.
+//!
+//! The three dispatch tables (ops_wrap/compiled.rs, ops_wrap/twins.rs, ops_wrap/capi.rs) are each keyed by the
+//! name of the one function the entry calls; *which* wrapper belongs to *which* twin is not decided here but by
+//! the method table of spec/Wrappers.tla (generated cases carry `twin`; the trace spec checks the driver's pairing).
+use crate::js::{self, big, big_f64, int};
 use crate::proj::*;
 use serde_json::{json, Value};
+use std::str::FromStr;
 use temporal_rs::options::*;
+use temporal_rs::partial::*;
+use temporal_rs::primitive::FiniteF64;
+use temporal_rs::provider::TransitionDirection;
 use temporal_rs::*;
 
+mod capi;
+mod compiled;
+mod enums;
+mod twins;
+
 pub fn exec(op: &str, a: &Value) -> Option<Value> {
-    let _ = a;
-    match op {
-        _ => None,
-    }
+    let row = op.strip_prefix("Wrap.")?;
+    let twin = a.get("twin").and_then(|t| t.as_str()).unwrap_or("");
+    // the core twin runs first (fresh provider, no shared state)
+    let c = twins::call(twin, a).unwrap_or_else(|| json!({"kind": "unknown-twin", "name": twin}));
+    let w = match row.strip_prefix("capi.") {
+        Some(r) => capi::call(r, a),
+        // A compiled-data wrapper runs while holding the process-wide TZ_PROVIDER mutex: a panic in there poisons it and
+        // every later compiled call of this process fails. Where the core twin has just panicked on the same arguments the
+        // wrapper is therefore not run (outcome presumed equal; panics are C03's subject), and nothing is run on a poisoned lock.
+        None if c["kind"] == "panic" => Some(json!({"kind": "panic", "presumed": true})),
+        None if temporal_rs::verif::provider_lock_poisoned() => Some(json!({"kind": "lock-poisoned"})),
+        None => compiled::call(row, a),
+    };
+    Some(json!({"wrapper": w.unwrap_or_else(|| json!({"kind": "unknown-wrapper", "name": row})), "core": c}))
 }
+
+/// names known to the three tables (for the pipeline's table cross-check)
+pub fn known(table: &str, name: &str) -> bool {
+    let probe = json!({});
+    let r = std::panic::catch_unwind(|| match table {
+        "compiled" => compiled::call(name, &probe).is_some(),
+        "capi" => capi::call(name, &probe).is_some(),
+        _ => twins::call(name, &probe).is_some(),
+    });
+    r.unwrap_or(true)
+}
+
+// ---------------------------------------------------------------- arguments (core types)
+pub const NS_DAY: i128 = 86_400_000_000_000;
+
+/// (epoch day, second of day, sub-second ns) -> epoch nanoseconds
+pub fn ens(v: &Value) -> i128 {
+    (js::i(v, "day") as i128 * 86_400 + js::i(v, "sec") as i128) * 1_000_000_000 + js::i(v, "ns") as i128
+}
+pub fn j_eparts(n: i128) -> Value {
+    let day = n.div_euclid(NS_DAY);
+    let rem = n.rem_euclid(NS_DAY);
+    json!({"day": int(day as i64), "sec": int((rem / 1_000_000_000) as i64), "ns": int((rem % 1_000_000_000) as i64)})
+}
+pub fn a_cal(v: &Value) -> TemporalResult<Calendar> {
+    match v.get("cal").and_then(|c| c.as_str()) { Some(c) => Calendar::from_str(c), None => Ok(Calendar::default()) }
+}
+pub fn a_tz(s: &str) -> TemporalResult<TimeZone> { TimeZone::try_from_str(s) }
+pub fn a_zdt(v: &Value) -> TemporalResult<ZonedDateTime> { ZonedDateTime::try_new(ens(v), a_cal(v)?, a_tz(js::s(v, "tz"))?) }
+pub fn a_inst(v: &Value) -> TemporalResult<Instant> { Instant::try_new(ens(v)) }
+pub fn a_date(v: &Value) -> TemporalResult<PlainDate> {
+    PlainDate::try_new(js::i(v, "y") as i32, js::i(v, "m") as u8, js::i(v, "d") as u8, a_cal(v)?)
+}
+pub fn a_time(v: &Value) -> TemporalResult<PlainTime> { arg_time(v) }
+pub fn a_dt(v: &Value) -> TemporalResult<PlainDateTime> {
+    PlainDateTime::try_new(js::i(v, "y") as i32, js::i(v, "m") as u8, js::i(v, "d") as u8,
+        js::i(v, "h") as u8, js::i(v, "mi") as u8, js::i(v, "s") as u8,
+        js::i(v, "ms") as u16, js::i(v, "us") as u16, js::i(v, "ns") as u16, a_cal(v)?)
+}
+pub fn a_dur(v: &Value) -> TemporalResult<Duration> { arg_duration(v) }
+pub fn a_ym(v: &Value) -> TemporalResult<PlainYearMonth> {
+    PlainYearMonth::new_with_overflow(js::i(v, "y") as i32, js::i(v, "m") as u8, None, a_cal(v)?, ArithmeticOverflow::Reject)
+}
+pub fn a_md(v: &Value) -> TemporalResult<PlainMonthDay> {
+    PlainMonthDay::new_with_overflow(js::i(v, "m") as u8, js::i(v, "d") as u8, a_cal(v)?, ArithmeticOverflow::Reject, v.get("y").and_then(|y| y.as_i64()).map(|y| y as i32))
+}
+pub fn a_isodate(v: &Value) -> iso::IsoDate {
+    let mut d = iso::IsoDate::default();
+    d.year = js::i(v, "y") as i32; d.month = js::i(v, "m") as u8; d.day = js::i(v, "d") as u8;
+    d
+}
+/// f64 argument: an exact integer (int or big); non-finite values travel out of band (see `special`)
+pub fn a_f64(v: &Value) -> f64 { f64_exact(v) }
+pub fn special(s: &str) -> f64 { match s { "NaN" => f64::NAN, "inf" => f64::INFINITY, "-inf" => f64::NEG_INFINITY, _ => panic!("special {}", s) } }
+/// `a[key]` = array of n exact integers; `a.special` = {"at": 1-based index, "val": "NaN"|"inf"|"-inf"} overrides one of them
+pub fn f_array(a: &Value, key: &str, n: usize) -> Vec<f64> {
+    let x = a[key].as_array().expect("number array");
+    assert!(x.len() == n, "array length");
+    let mut out: Vec<f64> = x.iter().map(f64_exact).collect();
+    if let Some(sp) = a.get("special") { out[js::i(sp, "at") as usize - 1] = special(js::s(sp, "val")); }
+    out
+}
+/// scalar with optional override `a.special.val`
+pub fn f_scalar(a: &Value, key: &str) -> f64 { match a.get("special") { Some(sp) => special(js::s(sp, "val")), None => f64_exact(&a[key]) } }
+pub fn a_ff(v: &Value) -> TemporalResult<FiniteF64> { FiniteF64::try_from(a_f64(v)) }
+
+pub fn unit_name(s: &str) -> Unit {
+    match s { "auto" => Unit::Auto, "nanosecond" => Unit::Nanosecond, "microsecond" => Unit::Microsecond, "millisecond" => Unit::Millisecond,
+        "second" => Unit::Second, "minute" => Unit::Minute, "hour" => Unit::Hour, "day" => Unit::Day, "week" => Unit::Week,
+        "month" => Unit::Month, "year" => Unit::Year, _ => panic!("unit {}", s) }
+}
+pub fn mode_name(s: &str) -> RoundingMode {
+    match s { "ceil" => RoundingMode::Ceil, "floor" => RoundingMode::Floor, "expand" => RoundingMode::Expand, "trunc" => RoundingMode::Trunc,
+        "halfCeil" => RoundingMode::HalfCeil, "halfFloor" => RoundingMode::HalfFloor, "halfExpand" => RoundingMode::HalfExpand,
+        "halfTrunc" => RoundingMode::HalfTrunc, "halfEven" => RoundingMode::HalfEven, _ => panic!("mode {}", s) }
+}
+pub fn ovf_name(s: &str) -> ArithmeticOverflow { match s { "constrain" => ArithmeticOverflow::Constrain, "reject" => ArithmeticOverflow::Reject, _ => panic!("ovf {}", s) } }
+pub fn a_ovf_opt(a: &Value) -> Option<ArithmeticOverflow> { js::opt_s(a, "ovf").map(ovf_name) }
+pub fn a_ovf(a: &Value) -> ArithmeticOverflow { ovf_name(js::s(a, "ovf")) }
+pub fn a_settings(v: &Value) -> TemporalResult<DifferenceSettings> {
+    let mut st = DifferenceSettings::default();
+    if let Some(u) = js::opt_s(v, "largest") { st.largest_unit = Some(unit_name(u)); }
+    if let Some(u) = js::opt_s(v, "smallest") { st.smallest_unit = Some(unit_name(u)); }
+    if let Some(m) = js::opt_s(v, "mode") { st.rounding_mode = Some(mode_name(m)); }
+    if js::has(v, "inc") { st.increment = Some(RoundingIncrement::try_new(js::i(v, "inc") as u32)?); }
+    Ok(st)
+}
+pub fn a_rounding(v: &Value) -> TemporalResult<RoundingOptions> {
+    let mut st = RoundingOptions::default();
+    st.largest_unit = js::opt_s(v, "largest").map(unit_name);
+    st.smallest_unit = js::opt_s(v, "smallest").map(unit_name);
+    st.rounding_mode = js::opt_s(v, "mode").map(mode_name);
+    st.increment = if js::has(v, "inc") { Some(RoundingIncrement::try_new(js::i(v, "inc") as u32)?) } else { None };
+    Ok(st)
+}
+/// {"precision": "auto" | "minute" | 0..9, "smallest"?, "mode"?}
+pub fn a_tsro(v: &Value) -> ToStringRoundingOptions {
+    let precision = match v.get("precision") {
+        Some(p) if p.as_str() == Some("minute") => parsers::Precision::Minute,
+        Some(p) if p.is_i64() => parsers::Precision::Digit(p.as_i64().unwrap() as u8),
+        _ => parsers::Precision::Auto,
+    };
+    ToStringRoundingOptions { precision, smallest_unit: js::opt_s(v, "smallest").map(unit_name), rounding_mode: js::opt_s(v, "mode").map(mode_name) }
+}
+pub fn dcal_name(s: &str) -> DisplayCalendar { match s { "auto" => DisplayCalendar::Auto, "always" => DisplayCalendar::Always, "never" => DisplayCalendar::Never, "critical" => DisplayCalendar::Critical, _ => panic!("dcal {}", s) } }
+pub fn doff_name(s: &str) -> DisplayOffset { match s { "auto" => DisplayOffset::Auto, "never" => DisplayOffset::Never, _ => panic!("doff {}", s) } }
+pub fn dtz_name(s: &str) -> DisplayTimeZone { match s { "auto" => DisplayTimeZone::Auto, "never" => DisplayTimeZone::Never, "critical" => DisplayTimeZone::Critical, _ => panic!("dtz {}", s) } }
+pub fn disamb_name(s: &str) -> Disambiguation { match s { "compatible" => Disambiguation::Compatible, "earlier" => Disambiguation::Earlier, "later" => Disambiguation::Later, "reject" => Disambiguation::Reject, _ => panic!("disamb {}", s) } }
+pub fn offdis_name(s: &str) -> OffsetDisambiguation { match s { "use" => OffsetDisambiguation::Use, "prefer" => OffsetDisambiguation::Prefer, "ignore" => OffsetDisambiguation::Ignore, "reject" => OffsetDisambiguation::Reject, _ => panic!("offdis {}", s) } }
+pub fn dir_name(s: &str) -> TransitionDirection { match s { "next" => TransitionDirection::Next, "previous" => TransitionDirection::Previous, _ => panic!("dir {}", s) } }
+
+fn opt_i(v: &Value, k: &str) -> Option<i64> { v.get(k).and_then(|x| x.as_i64()) }
+/// partial date {"year"?, "month"?, "month_code"?, "day"?, "era"?, "era_year"?, "cal"?}
+pub fn a_pdate(v: &Value) -> TemporalResult<PartialDate> {
+    Ok(PartialDate {
+        year: opt_i(v, "year").map(|x| x as i32),
+        month: opt_i(v, "month").map(|x| x as u8),
+        // the core parser of month codes, with the core's own error kind
+        month_code: match js::opt_s(v, "month_code") { Some(s) => Some(MonthCode::try_from_utf8(s.as_bytes())?), None => None },
+        day: opt_i(v, "day").map(|x| x as u8),
+        era: match js::opt_s(v, "era") { Some(s) => Some(TinyAsciiStr::try_from_utf8(s.as_bytes()).map_err(|_| TemporalError::syntax())?), None => None },
+        era_year: opt_i(v, "era_year").map(|x| x as i32),
+        calendar: a_cal(v)?,
+    })
+}
+pub fn a_ptime(v: &Value) -> PartialTime {
+    PartialTime { hour: opt_i(v, "hour").map(|x| x as u8), minute: opt_i(v, "minute").map(|x| x as u8), second: opt_i(v, "second").map(|x| x as u8),
+        millisecond: opt_i(v, "millisecond").map(|x| x as u16), microsecond: opt_i(v, "microsecond").map(|x| x as u16), nanosecond: opt_i(v, "nanosecond").map(|x| x as u16) }
+}
+pub const PDUR_KEYS: [&str; 10] = ["years", "months", "weeks", "days", "hours", "minutes", "seconds", "milliseconds", "microseconds", "nanoseconds"];
+/// value of partial-duration field k: present number, or the out-of-band special {"key": k, "val": ...}
+pub fn pdur_field(v: &Value, k: &str) -> Option<f64> {
+    if let Some(sp) = v.get("special") { if js::s(sp, "key") == k { return Some(special(js::s(sp, "val"))); } }
+    match v.get(k) { Some(x) if !x.is_null() => Some(f64_exact(x)), _ => None }
+}
+pub fn a_pdur(v: &Value) -> TemporalResult<PartialDuration> {
+    let f = |k: &str| -> TemporalResult<Option<FiniteF64>> { match pdur_field(v, k) { Some(x) => Ok(Some(FiniteF64::try_from(x)?)), None => Ok(None) } };
+    Ok(PartialDuration { years: f("years")?, months: f("months")?, weeks: f("weeks")?, days: f("days")?, hours: f("hours")?, minutes: f("minutes")?,
+        seconds: f("seconds")?, milliseconds: f("milliseconds")?, microseconds: f("microseconds")?, nanoseconds: f("nanoseconds")? })
+}
+/// relativeTo: null | {"date": {...}} | {"zdt": {...}}
+pub fn a_relto(v: &Value) -> TemporalResult<Option<RelativeTo>> {
+    if let Some(d) = v.get("date") { return Ok(Some(RelativeTo::PlainDate(a_date(d)?))); }
+    if let Some(z) = v.get("zdt") { return Ok(Some(RelativeTo::ZonedDateTime(a_zdt(z)?))); }
+    Ok(None)
+}
+
+// ---------------------------------------------------------------- projections (core types, public getters)
+pub fn ji<T: Copy + Into<i64>>(v: &T) -> Value { int((*v).into()) }
+/// Option<T> is projected as a 0/1-element array (TLC's JSON has no null)
+pub fn jo<T: Copy + Into<i64>>(v: &Option<T>) -> Value { match v { Some(x) => json!([int((*x).into())]), None => json!([]) } }
+pub fn jb(v: &bool) -> Value { json!(*v) }
+pub fn js_(v: &String) -> Value { json!(v) }
+pub fn j_i64(v: &i64) -> Value { big(*v as i128) }
+pub fn j_f64(x: f64) -> Value { json!({"f64bits": format!("{:016x}", x.to_bits())}) }
+fn with_cal(mut o: Value, id: &str) -> Value { if id != "iso8601" { o["cal"] = json!(id); } o }
+pub fn j_date(d: &PlainDate) -> Value { with_cal(json!({"y": int(d.iso_year() as i64), "m": d.iso_month(), "d": d.iso_day()}), d.calendar().identifier()) }
+pub fn j_time(t: &PlainTime) -> Value { p_time(t) }
+pub fn j_dt(t: &PlainDateTime) -> Value {
+    with_cal(json!({"y": int(t.iso_year() as i64), "m": t.iso_month(), "d": t.iso_day(), "h": t.hour(), "mi": t.minute(), "s": t.second(),
+        "ms": t.millisecond(), "us": t.microsecond(), "ns": t.nanosecond()}), t.calendar().identifier())
+}
+pub fn j_dur(d: &Duration) -> Value { p_duration(d) }
+pub fn j_inst(i: &Instant) -> Value { j_eparts(i.as_i128()) }
+pub fn j_zdt(z: &ZonedDateTime) -> Value {
+    let mut o = j_eparts(z.epoch_nanoseconds().as_i128());
+    o["tz"] = json!(z.timezone().identifier().unwrap_or_else(|_| "?".into()));
+    with_cal(o, z.calendar().identifier())
+}
+pub fn j_ozdt(z: &Option<ZonedDateTime>) -> Value { match z { Some(z) => json!([j_zdt(z)]), None => json!([]) } }
+pub fn j_ym(d: &PlainYearMonth) -> Value { with_cal(json!({"y": int(d.iso_year() as i64), "m": d.iso_month()}), d.calendar().identifier()) }
+pub fn j_md(d: &PlainMonthDay) -> Value { with_cal(json!({"y": int(d.iso_year() as i64), "m": d.iso_month(), "d": d.iso_day()}), d.calendar().identifier()) }
+pub fn j_sign(s: &Sign) -> Value { json!(*s as i8) }
+pub fn j_era<const N: usize>(e: &Option<TinyAsciiStr<N>>) -> Value { match e { Some(s) => json!([s.as_str()]), None => json!([]) } }
